@@ -16,7 +16,7 @@ from .util import enc_model, settle
 from .c18 import _merge_canaries
 
 PROP = "C02"
-SIZES_QUICK = [(1, 1), (2, 1), (1, 2, 1), (1, 1, 1, 1)]
+SIZES_QUICK = [(1, 1), (2, 1), (1, 2, 1), (1, 1, 1, 1), (5, 2)]
 SIZES_THOROUGH = SIZES_QUICK + [(3, 1, 2), (2, 1, 1, 2), (1, 1, 1, 1, 1), (1, 2, 1, 1, 1), (1, 1, 1, 1, 1, 1)]
 
 
